@@ -1,6 +1,7 @@
 import Csverif.Proofs.Engine
 import Csverif.Proofs.EngineXfer
 import Csverif.Proofs.EngineMore
+import Csverif.Proofs.EngineRefresh
 /-
 ENG — theorems about the decision tables of the sync engine (Model/Engine.lean; the model is tied to the real methods of
 cloudsync/sync/manager.py by harness/eng_decide.py, driver layer `engine`).
@@ -30,6 +31,12 @@ structure of the model (no enumeration needed: `Entry × Oracle` is finite up to
     `same_hash_conflict_merges_without_resolver`, `hash_conflict_sync_total`; `conflict_name_fresh`, `conflict_rename_total`;
     `fnf_gives_up_after_bounded_punts`, `fnf_out`, `fnf_parent_becomes_creation`; `disjoint_create_never_overwrites`;
     `folder_file_conflict_is_live_file`, `mkdir_head_law`
+15. part 4, REFRESH SCOPES (Model/EngineRefresh.lean, namespace `CS.Engine.Refresh`): `get_latest_scope_law`, `get_latest_one_side_law`,
+    `full_refresh_marks_cover_stamps`, `restricted_scope_is_blind`, `full_scope_sees_other_stamp`, `refresh_sites_scopes`;
+    `rename_over_delete_only_after_full_refresh`, `rename_over_spares_seen_edit_partial`
+    (+ witnesses `rename_over_deletes_unseen_edit_when_unstamped`, `rename_over_deletes_edit_of_ignored_entry`,
+    `restricted_conflict_refresh_is_blind`), `handle_rename_refines_table`, `split_defer_reads_defer_side_only`,
+    `change_fill_needs_stamp`, `pre_sync_refresh_covers_stamps`
 -/
 namespace CS.Engine
 open CS.Hints (Ex OT Ign)
@@ -1603,3 +1610,271 @@ example : CS.Engine.hashConflict { l := { CS.Engine.wSynced with h := .ne }, r :
     (CS.Engine.Conflict.hashConflictHandler ⟨.temp, false, false, .ok⟩
       { l := { CS.Engine.wSynced with h := .ne }, r := { CS.Engine.wSynced with h := .ne }, lLeR := true, ign := .no, prio := 0 }).out = .raised .temp := by
   decide
+
+/-! ## 15. part 4 — refresh scopes: which entry is re-read on which sides before the engine decides -/
+
+namespace CS.Engine.Refresh
+open CS.Engine CS.Hints
+
+/-- SCOPE LAW of `SyncEntry.get_latest(force, sides=(a, b))`: a side is re-read exactly when `force` or the newest change stamp OF
+    THE LISTED SIDES is newer than the side's `_last_gotten` mark -/
+theorem get_latest_scope_law (w : World) (r : RE) (a b : Sd) (hab : a ≠ b) (force : Bool) (t : Sd) :
+    t ∈ (getLatest w r [a, b] force).2 ↔ fires force (max (r.ch a) (r.ch b)) (r.lg t) := by
+  have ht : t = a ∨ t = b := by cases t <;> cases a <;> cases b <;> simp_all
+  have hba : ¬ b = a := fun h => hab h.symm
+  rw [getLatest_two_reread w r a b hab]
+  rcases ht with h | h
+  · subst h
+    by_cases h1 : fires force (max (r.ch t) (r.ch b)) (r.lg t) <;> by_cases h2 : fires force (max (r.ch t) (r.ch b)) (r.lg b) <;>
+      simp [h1, h2, hab]
+  · subst h
+    by_cases h1 : fires force (max (r.ch a) (r.ch t)) (r.lg a) <;> by_cases h2 : fires force (max (r.ch a) (r.ch t)) (r.lg t) <;>
+      simp [h1, h2, hba]
+
+/-- the same for a one-sided call (`sides=(a,)`): only `a` can be re-read, and only ITS stamp counts -/
+theorem get_latest_one_side_law (w : World) (r : RE) (a : Sd) (force : Bool) (t : Sd) :
+    t ∈ (getLatest w r [a] force).2 ↔ t = a ∧ fires force (r.ch a) (r.lg a) := by
+  rw [getLatest_one_reread]
+  by_cases h : fires force (r.ch a) (r.lg a) <;> simp [h]
+
+/-- after a two-sided `get_latest`, each side's mark is at least the newest stamp the entry carried: both sides were read at or after
+    the latest recorded change -/
+theorem full_refresh_marks_cover_stamps (w : World) (r : RE) (force : Bool) (t : Sd) :
+    max r.chL r.chR ≤ (getLatest w r [.loc, .rem] force).1.lg t := by
+  rw [getLatest_two_marks w r .loc .rem (by decide) force t]
+  by_cases h : fires force (max (r.ch .loc) (r.ch .rem)) (r.lg t)
+  · rw [if_pos h]; exact Nat.le_refl _
+  · rw [if_neg h]
+    unfold fires at h
+    simp only [RE.ch] at h
+    omega
+
+/-- a call restricted to a side WITHOUT a change stamp re-reads nothing, whatever the other side's stamp says (state.py 639: the
+    maximum runs over the listed sides only).  This is why restricting the refresh at a destructive decision loses edits. -/
+theorem restricted_scope_is_blind (w : World) (r : RE) (s : Sd) (h : r.ch s = 0) : getLatest w r [s] false = (r, []) := by
+  unfold getLatest
+  simp [h]
+
+/-- the full scope re-reads a side as soon as EITHER stamp is newer than its mark -/
+theorem full_scope_sees_other_stamp (w : World) (r : RE) (s : Sd) (h : r.lg s < r.ch s.other) :
+    s ∈ (getLatest w r [.loc, .rem] false).2 := by
+  rw [get_latest_scope_law w r .loc .rem (by decide)]
+  right
+  cases s <;> simp only [RE.ch, Sd.other] at h ⊢ <;> omega
+
+/-- the call sites: every refresh before a decision on the whole entry is two-sided; the one-sided ones are the defer side of a split
+    conflict and the path fill-in of `change` -/
+theorem refresh_sites_scopes (site : Site) :
+    site.scope.1 = [.loc, .rem] ∨ (∃ d, site = .splitDefer d ∧ site.scope = ([d], false)) ∨ (∃ d, site = .changeFill d ∧ site.scope = ([d], false)) := by
+  cases site <;> simp [Site.scope]
+
+theorem rename_conflict_refresh_is_full : Site.renameConflict.scope = ([.loc, .rem], false) := rfl
+
+/-- the oracle of the part-1 table (Model/Engine.lean `handleRename`) that the refreshed entry at the target stands for -/
+def tableOracle (o : Oracle) (wc : World) (cf : Option RE) : Oracle :=
+  { o with rcEnt := cf.isSome,
+           rcNeedsSync := match cf with
+             | some k => !quiet (atSite wc k .renameConflict).1
+             | none => false }
+
+/-- REFINEMENT: `handleRenameR` (the entry at the target is a real entry, refreshed, then asked) takes the decisions of the part-1
+    table `handleRename` whose oracle bits say "there is such an entry" and "after the refresh a side of it needs sync" -/
+theorem handle_rename_refines_table (o : Oracle) (w wc : World) (me : RE) (cf : Option RE) (c : Sd) :
+    (handleRenameR o w wc me cf c).out = (handleRename (tableOracle o wc cf) me.e c).out ∧
+    (handleRenameR o w wc me cf c).effs = (handleRename (tableOracle o wc cf) me.e c).effs := by
+  have htr : (tableOracle o wc cf).tr c.other = o.tr c.other := by cases c <;> rfl
+  have hren : (tableOracle o wc cf).ren = o.ren := rfl
+  unfold handleRenameR handleRename
+  dsimp only
+  rw [htr, hren]
+  by_cases h1 : (o.tr c.other).eqSync (me.e.get c.other).p = true
+  · simp only [h1, ↓reduceIte, Bool.false_eq_true, and_self]
+  simp only [h1, ↓reduceIte, Bool.false_eq_true]
+  by_cases h2 : (!((me.e.get c.other).h.sync || (me.e.get c.other).otype == OT.dir)) = true
+  · simp only [h2, ↓reduceIte, Bool.false_eq_true, and_self]
+  simp only [h2, ↓reduceIte, Bool.false_eq_true]
+  by_cases h3 : (o.tr c.other).matchSync (me.e.get c.other).p = true
+  · simp only [h3, ↓reduceIte, Bool.false_eq_true, and_self]
+  simp only [h3, ↓reduceIte, Bool.false_eq_true]
+  cases hr : o.ren with
+  | exists_ =>
+    dsimp only
+    by_cases h4 : me.e.prio ≤ 0
+    · simp only [h4, ↓reduceIte, Bool.false_eq_true, and_self]
+    · simp only [h4, ↓reduceIte, Bool.false_eq_true]
+      cases cf with
+      | none =>
+        by_cases h5 : o.fixFnf = true <;> simp [tableOracle, renameFix, h5]
+      | some k =>
+        by_cases h5 : quiet (atSite wc k Site.renameConflict).1 = true
+        · by_cases h6 : o.rcDelExists = true <;> by_cases h7 : o.fixFnf = true <;> simp [tableOracle, renameFix, h5, h6, h7]
+        · by_cases h7 : o.fixFnf = true <;> simp [tableOracle, renameFix, h5, h7]
+  | ok => exact ⟨rfl, rfl⟩
+  | fnf => exact ⟨rfl, rfl⟩
+  | nameErr => exact ⟨rfl, rfl⟩
+  | temp => exact ⟨rfl, rfl⟩
+
+/-- in the part-1 table the delete of another entry's object sits in one branch only -/
+theorem handleRename_deleteOther (o : Oracle) (e : Entry) (c s : Sd) (h : Eff.deleteOther s ∈ (handleRename o e c).effs) :
+    o.ren = .exists_ ∧ 0 < e.prio ∧ o.rcEnt = true ∧ o.rcNeedsSync = false := by
+  unfold handleRename at h
+  dsimp only at h
+  by_cases h1 : (o.tr c.other).eqSync (e.get c.other).p = true
+  · simp [h1] at h
+  simp only [h1, ↓reduceIte, Bool.false_eq_true] at h
+  by_cases h2 : (!((e.get c.other).h.sync || (e.get c.other).otype == OT.dir)) = true
+  · simp [h2] at h
+  simp only [h2, ↓reduceIte, Bool.false_eq_true] at h
+  by_cases h3 : (o.tr c.other).matchSync (e.get c.other).p = true
+  · simp [h3] at h
+  simp only [h3, ↓reduceIte, Bool.false_eq_true] at h
+  cases hr : o.ren with
+  | exists_ =>
+    simp only [hr] at h
+    by_cases h4 : e.prio ≤ 0
+    · simp [h4] at h
+    · simp only [h4, ↓reduceIte] at h
+      by_cases h5 : (o.rcEnt && !o.rcNeedsSync) = true
+      · simp only [Bool.and_eq_true, Bool.not_eq_true'] at h5
+        exact ⟨rfl, by omega, h5.1, h5.2⟩
+      · simp only [h5, ↓reduceIte, Bool.false_eq_true] at h
+        unfold renameFix at h
+        split_ifs at h <;> simp at h
+  | ok => simp only [hr] at h; split_ifs at h <;> simp at h
+  | fnf => simp [hr] at h
+  | nameErr => simp [hr] at h
+  | temp => simp [hr] at h
+
+/-- SAFETY of the CloudFileExistsError branch of `handle_rename`: the provider delete of ANOTHER entry's object (manager.py 1317) is
+    chosen only when there is an entry at the target, it was refreshed on BOTH sides (each mark at or after the newest stamp it
+    carried) and, after that refresh, neither side needs sync — and only on a retry (priority > 0) -/
+theorem rename_over_delete_only_after_full_refresh (o : Oracle) (w wc : World) (me : RE) (cf : Option RE) (c s : Sd)
+    (h : Eff.deleteOther s ∈ (handleRenameR o w wc me cf c).effs) :
+    ∃ k, cf = some k ∧ quiet (atSite wc k .renameConflict).1 = true ∧
+      (∀ t, max k.chL k.chR ≤ (atSite wc k .renameConflict).1.lg t) ∧ 0 < me.e.prio ∧ o.ren = .exists_ := by
+  rw [(handle_rename_refines_table o w wc me cf c).2] at h
+  obtain ⟨h1, h2, h3, h4⟩ := handleRename_deleteOther _ _ _ _ h
+  cases cf with
+  | none => simp [tableOracle] at h3
+  | some k =>
+    refine ⟨k, rfl, ?_, fun t => full_refresh_marks_cover_stamps wc k false t, h2, h1⟩
+    simpa [tableOracle] using h4
+
+/-- … and what that refresh is worth (PARTIAL: the full statement "an object whose content the entry does not record is never deleted"
+    is false on HEAD, see the two witnesses below).  If the entry at the target is not ignored, its synced side is identified and
+    flag and stamp agree, SOME stamp of the entry is newer than that side's mark (an event was taken in since the side was last
+    read), and the object now has another hash than the entry records, then the object is NOT deleted: the refresh re-reads the
+    side, finds the hash, and the side needs sync. -/
+theorem rename_over_spares_seen_edit_partial (o : Oracle) (w wc : World) (me k : RE) (c : Sd) (pa : Ans) (ot : OT)
+    (hpre : Pre k c.other) (hp : wc.probe c.other = .present .newOther pa ot) (hf : k.lg c.other < max k.chL k.chR) :
+    Eff.deleteOther c.other ∉ (handleRenameR o w wc me (some k) c).effs := by
+  intro h
+  obtain ⟨k', hk, hq, -⟩ := rename_over_delete_only_after_full_refresh o w wc me (some k) c c.other h
+  cases hk
+  have hd : Dirty ((atSite wc k .renameConflict).1.e.get c.other) := by
+    show Dirty ((getLatest wc k [.loc, .rem] false).1.e.get c.other)
+    rw [getLatest_eq]
+    have hm : maxStamp k [.loc, .rem] = max k.chL k.chR := maxStamp_full k
+    rw [hm]
+    simp only [List.foldl]
+    cases c with
+    | rem =>
+      -- the synced side is LOCAL: read first, REMOTE afterwards
+      simp only [Sd.other] at hpre hp hf ⊢
+      have h1 : Dirty ((glStep wc false (max k.chL k.chR) (k, []) .loc).1.e.get .loc) := by
+        unfold glStep
+        have hf' : (false || decide (max k.chL k.chR > (k, ([] : List Sd)).1.lg .loc)) = true := by simpa [RE.lg] using hf
+        rw [if_pos hf']
+        exact uncond_edit_dirty wc k .loc pa ot hpre hp
+      generalize glStep wc false (max k.chL k.chR) (k, []) .loc = a at h1
+      unfold glStep
+      split_ifs
+      · exact uncond_other_dirty wc a.1 .loc h1
+      · exact h1
+    | loc =>
+      -- the synced side is REMOTE: LOCAL is read (or not) first
+      simp only [Sd.other] at hpre hp hf ⊢
+      have h1 : Pre (glStep wc false (max k.chL k.chR) (k, []) .loc).1 .rem ∧
+          (glStep wc false (max k.chL k.chR) (k, []) .loc).1.lg .rem = k.lg .rem := by
+        refine ⟨?_, ?_⟩
+        · unfold glStep
+          split_ifs
+          · have := uncond_other_pre wc k .rem hpre
+            exact this
+          · exact hpre
+        · rw [glStep_lg]; simp
+      generalize glStep wc false (max k.chL k.chR) (k, []) .loc = a at h1
+      unfold glStep
+      have hf' : (false || decide (max k.chL k.chR > a.1.lg .rem)) = true := by rw [h1.2]; simpa [RE.lg] using hf
+      rw [if_pos hf']
+      exact uncond_edit_dirty wc a.1 .rem pa ot h1.1 hp
+  have := hd.needsSync
+  unfold quiet at hq
+  cases c <;> simp only [Sd.other, Entry.get] at this <;> simp [this] at hq
+
+/-! witnesses (kernel-checked): where the full statement fails on HEAD, and what the restricted scope would do -/
+
+/-- LOCAL renamed a -> b (retry, priority 1.0), REMOTE answers CloudFileExistsError -/
+def wRenOracle : Oracle := { Oracle.quiet with trR := .gt, ren := .exists_ }
+
+def wRenMe : RE :=
+  { e := { l := { wSynced with p := .ne, changed := true }, r := wSynced, lLeR := false, ign := .no, prio := 10 },
+    chL := 5, chR := 0, lgL := 5, lgR := 5, clock := 1000 }
+
+/-- the REMOTE object of the entry at the target has been edited (another hash), LOCAL is as recorded -/
+def wEdited : World := ⟨.present .same .same .file, .present .newOther .same .file, false, false⟩
+
+/-- an entry in sync that carries NO change stamp: no event about the edit has been taken in -/
+def wTargetUnstamped : RE :=
+  { e := { l := wSynced, r := wSynced, lLeR := true, ign := .no, prio := 0 }, chL := 0, chR := 0, lgL := 0, lgR := 0, clock := 1000 }
+
+/-- COUNTEREXAMPLE 1 to "an object whose content the entry does not record is never deleted": without any change stamp `get_latest`
+    re-reads nothing (`max(changed) = 0 > _last_gotten` is false), the entry still looks in sync, and the edited object is deleted -/
+theorem rename_over_deletes_unseen_edit_when_unstamped :
+    (handleRenameR wRenOracle wEdited wEdited wRenMe (some wTargetUnstamped) .loc).effs = [.rename .rem, .deleteOther .rem] ∧
+    (handleRenameR wRenOracle wEdited wEdited wRenMe (some wTargetUnstamped) .loc).calls = [⟨.conflict, .renameConflict, []⟩] := by
+  decide
+
+/-- an entry ignored as CONFLICT whose LOCAL side carries a stamp newer than both marks; REMOTE (in sync, unflagged) has been edited -/
+def wTargetIgnored : RE :=
+  { e := { l := { wSynced with changed := true }, r := wSynced, lLeR := false, ign := .conflict, prio := 0 },
+    chL := 7, chR := 0, lgL := 3, lgR := 3, clock := 1000 }
+
+/-- COUNTEREXAMPLE 2: both sides ARE re-read and the new hash is recorded, but `unconditionally_get_latest` stamps a side only when the
+    entry is not ignored (state.py 1412): the unflagged side does not need sync, and the edited object is deleted -/
+theorem rename_over_deletes_edit_of_ignored_entry :
+    (handleRenameR wRenOracle wEdited wEdited wRenMe (some wTargetIgnored) .loc).effs = [.rename .rem, .deleteOther .rem] ∧
+    (handleRenameR wRenOracle wEdited wEdited wRenMe (some wTargetIgnored) .loc).calls = [⟨.conflict, .renameConflict, [.loc, .rem]⟩] ∧
+    ((handleRenameR wRenOracle wEdited wEdited wRenMe (some wTargetIgnored) .loc).conflict.map (fun k => k.e.r.h)) = some .ne := by
+  decide
+
+/-- the entry of the OLD b after `delete b; rename a -> b` on a path-id side: LOCAL is a flagged tombstone whose id went to the renamed
+    file, REMOTE is in sync and unflagged; the marks are older than LOCAL's stamp -/
+def wTargetRenamedOver : RE :=
+  { e := { l := { Side.blank with ex := .trashed, changed := true }, r := wSynced, lLeR := false, ign := .no, prio := 0 },
+    chL := 5, chR := 0, lgL := 3, lgR := 3, clock := 1000 }
+
+/-- what `conflict.get_latest(sides=(synced,))` would do (the reviewer-seeded regression): restricted to the unstamped synced side the
+    refresh is blind and the entry looks in sync, the two-sided refresh of HEAD re-reads REMOTE, finds the edit, and the entry needs sync -/
+theorem restricted_conflict_refresh_is_blind :
+    quiet (getLatest wEdited wTargetRenamedOver [.rem] false).1 = true ∧ (getLatest wEdited wTargetRenamedOver [.rem] false).2 = [] ∧
+    quiet (getLatest wEdited wTargetRenamedOver [.loc, .rem] false).1 = false ∧
+    (handleRenameR wRenOracle wEdited wEdited wRenMe (some wTargetRenamedOver) .loc).effs = [.rename .rem, .conflictRename .rem, .conflictRename .rem] := by
+  decide
+
+/-! the one-sided sites -/
+
+/-- `handle_split_conflict` refreshes the defer side only, and only by ITS stamp -/
+theorem split_defer_reads_defer_side_only (w : World) (r : RE) (d : Sd) :
+    (atSite w r (.splitDefer d)).2 = if fires false (r.ch d) (r.lg d) then [d] else [] :=
+  getLatest_one_reread w r d false
+
+/-- the path fill-in of `SyncState.change` does nothing for a side without a change stamp (whatever the other side's stamp says) -/
+theorem change_fill_needs_stamp (w : World) (r : RE) (s : Sd) (h : r.ch s = 0) : atSite w r (.changeFill s) = (r, []) :=
+  restricted_scope_is_blind w r s h
+
+/-- what `sync` gets to see after `pre_sync`: both marks at or after the newest stamp -/
+theorem pre_sync_refresh_covers_stamps (w : World) (r : RE) (t : Sd) : max r.chL r.chR ≤ (preSyncR w r).1.lg t :=
+  full_refresh_marks_cover_stamps w r false t
+
+end CS.Engine.Refresh
